@@ -123,6 +123,9 @@ void *do_alloc(size_t size, bool array, size_t align, bool nothrow, bool cstyle 
         }
     }
     if (fail) { if (nothrow) return nullptr; throw std::bad_alloc(); }
+    // more than the address space holds (for one-byte elements the compiler hands `new T[n]` requests through unchecked): refused like any
+    // allocator would, before the arithmetic below could wrap around
+    if (size > ((size_t)1 << 47)) { if (nothrow) return nullptr; throw std::bad_alloc(); }
     void *p;
     const bool over_aligned = align > alignof(std::max_align_t);
     // a request of a gigabyte or more (sizes that do not fit 32 bits are part of "much larger") is served from reserved, untouched address
